@@ -111,6 +111,110 @@ def _c12_case(shape, text, preemptions, skip=False, wf_name='wf'):
     return case
 
 
+MIDRUN = """
+version: '2.0'
+wf:
+  tasks:
+    x:
+      action: std.noop
+      on-success: x2
+    y:
+      action: std.noop
+      on-success: y2
+    x2:
+      action: std.noop
+    y2:
+      action: std.noop
+"""
+
+
+def _c12_midrun_case(preemptions):
+    """the failed task is rerun while another branch of the same workflow is
+    still running (the workflow has not come to rest yet)"""
+    def case():
+        from vt.world import World
+        from vt.explorer import Explorer
+        from mistral_lib import actions as ml
+        sig = 'C12.midrun'
+        w = World([MIDRUN])
+        with w:
+            ex = Explorer(w, sig, preemptions=0)
+            ex.rerun_allowed = True
+            phase = {'n': 1}
+
+            def tname(ev):
+                tid = ev.payload['exec_ctx'].get('task_execution_id')
+                return [t for t in w.rows('TaskExecution')
+                        if t['id'] == tid][0]['name']
+
+            def result_for(ev):
+                n = tname(ev)
+                if n == 'x':
+                    if phase['n'] == 1:
+                        return ml.Result(error='first attempt fails')
+                    out = ex.outcome('x_second')
+                    return ml.Result(data='ok') if out == 'SUCCESS' \
+                        else ml.Result(error='boom')
+                return ml.Result(data='ok')
+            ex.result_for = result_for
+            wid = w.start('wf')
+            ex.check_invariants()
+            # deliver everything except y's action (a slow executor)
+            held = []
+            for _ in range(40):
+                evs = [e for e in w.events
+                       if not (e.kind == 'action' and tname(e) == 'y')]
+                if not evs:
+                    break
+                ex.deliver(evs[0])
+            x = w.task('x', wid)
+            y = w.task('y', wid)
+            assume(x is not None and x['state'] == 'ERROR' and
+                   y is not None and y['state'] == 'RUNNING')
+            reach('failed-while-sibling-running')
+            wf_before = w.wf_ex(wid)['state']
+            note('wf state at rerun', wf_before)
+            phase['n'] = 2
+            reset = choice('reset', [True, False])
+            r, errs = ex.operator('rerun_workflow', x['id'], reset=reset)
+            info = {'trace': ex.trace[-30:], 'wf_before': wf_before,
+                    'errors': [repr(e)[:200] for e in errs]}
+            check(not errs, 'rerun-of-failed-task-refused',
+                  dict(info, signature=sig + ':refused'))
+            ex.preemptions = preemptions
+            ex.run()
+            reach('rerun-done')
+            new = ex.outcomes.get('x_second')
+            states = {t['name']: t['state'] for t in w.tasks(wid)}
+            wf = w.wf_ex(wid)
+            info = dict(info, trace=ex.trace[-35:], states=states,
+                        wf=wf['state'], new=new)
+            want = {'x': new, 'y': 'SUCCESS', 'y2': 'SUCCESS'}
+            if new == 'SUCCESS':
+                want['x2'] = 'SUCCESS'
+            check(states == want, 'tasks-differ-from-language',
+                  dict(info, signature=sig + ':tasks', want=want))
+            check(wf['state'] == ('SUCCESS' if new == 'SUCCESS'
+                                  else 'ERROR'),
+                  'final-state-differs-from-language',
+                  dict(info, signature=sig + ':final-state'))
+            names = [t['name'] for t in w.tasks(wid)]
+            check(len(names) == len(set(names)), 'task-created-twice',
+                  dict(info, signature=sig + ':task-twice'))
+            xa = w.actions(w.task('x', wid)['id'])
+            check(len(xa) == 2 and len([a for a in xa if a['accepted']]) == 1,
+                  'rerun-did-not-run-exactly-one-new-action',
+                  dict(info, signature=sig + ':action-count', n=len(xa)))
+            for n_ in ('y', 'x2', 'y2'):
+                t_ = w.task(n_, wid)
+                if t_ is not None:
+                    check(len(w.actions(t_['id'])) == 1,
+                          'action-dispatched-twice',
+                          dict(info, signature=sig + ':action-twice',
+                               task=n_))
+    return case
+
+
 ITEMS_SUBWF = """
 version: '2.0'
 parent:
@@ -231,6 +335,7 @@ def _c12_items_case(preemptions):
                'DirectWorkflowController._find_next_tasks'],
     bounds={'quick': 'shapes chain3, fork_join, join_2_of_3_mixed, '
                      'skip routes (with / without on-skip), parent+child, a '
+                     'rerun issued while a sibling branch is still running, a '
                      'with-items task over two sub-workflows that both '
                      'failed and are both rerun (outcomes and <= 2 '
                      'out-of-order deliveries symbolic); '
@@ -258,6 +363,8 @@ def c12_e(ctx):
     yield Case('subwf', _c12_case('subwf', shapes.SUBWF_PLAIN, k,
                                   wf_name='parent'),
                needed=['first-run-failed', 'rerun-done', 'nested-rerun'])
+    yield Case('mid-run', _c12_midrun_case(max(k, 1)),
+               needed=['failed-while-sibling-running', 'rerun-done'])
     yield Case('items-subwf', _c12_items_case(max(k, 1) + 1),
                needed=['first-run-failed', 'rerun-done',
                        'one-child-still-running'])
